@@ -200,7 +200,7 @@ func runOne(engine string, d rtDesc, shared wazero.CompilationCache, dir string,
 }
 
 func (c12) Run(t *tape.Tape, cfg sim.Config) (res sim.Result) {
-	o := plan.Opts{MinFuncs: 3, MaxFuncs: 8, MaxAtoms: 6, Host: true, Traps: true, Grow: true, Table: true, Segments: true, HostTags: 4}
+	o := plan.Opts{MinFuncs: 3, MaxFuncs: 8, MaxAtoms: 6, Host: true, Traps: true, Grow: true, Table: true, Segments: true, HostTags: 4, GRef: true}
 	p := plan.Generate(t, o)
 	p.Name = "pn"
 	bin := p.Encode()
